@@ -289,16 +289,16 @@ func main() {
 
 	wall := time.Since(start).Seconds()
 	cov := map[string]interface{}{
-		"evaluations":         agg.Evaluations,
-		"distinct_nontrivial": len(hashes),
-		"nontrivial_total":    agg.NonTrivial,
-		"rule":                cfg.Rule,
-		"samples":             agg.Samples,
-		"classes":             agg.Classes,
+		"evaluations":              agg.Evaluations,
+		"distinct_nontrivial":      len(hashes),
+		"nontrivial_total":         agg.NonTrivial,
+		"rule":                     cfg.Rule,
+		"samples":                  agg.Samples,
+		"classes":                  agg.Classes,
 		"excluded_by_construction": agg.Excluded,
-		"known_finding_hits":  agg.KnownHits,
-		"shards":              tc.Shards,
-		"rapid_checks_per_shard": tc.Checks,
+		"known_finding_hits":       agg.KnownHits,
+		"shards":                   tc.Shards,
+		"rapid_checks_per_shard":   tc.Checks,
 	}
 	if len(agg.Samples) == 0 {
 		cov["samples"] = []interface{}{}
